@@ -314,6 +314,10 @@ static int oracle_check(const char *path, struct or_cfg cfg)
 	return or_fails;
 }
 
+/* concrete "solo" alarms fire only well beyond the model's bound: a harmless extra access must not look like a progress
+ * failure (spin hints / polls are always an alarm; exact own-step counts are compared by the driver = divergence only) */
+#define SOLO_SLACK(b) (4 * (b) + 16)
+
 /* ------------------------------------------------------------------------------------------------
  * C17: solo runs.  The scenario defines, before including this file: STACK_C17, an enum of
  * operation kinds, `kname[]`, `kbound[]` (own scheduling points of one complete operation started
@@ -364,13 +368,13 @@ static void c17_op_end(int kind)
 	c17_kind[me] = -1;
 	if (dr)
 		vrt_fail("solo", "%s executed %lu spin hints / polls: it waited for another thread", kname[kind], dr);
-	if (kwaitfree[kind] && ds > kbound[kind])
+	if (kwaitfree[kind] && ds > SOLO_SLACK(kbound[kind]))
 		vrt_fail("solo", "wait-free %s took %lu own steps, bound %lu", kname[kind], ds, kbound[kind]);
 	if (c17_self[me]) {
 		vrt_log("SOLO %s steps=%lu relax=%lu", kname[kind], ds, dr);
 		c17_runs[0]++;
 		if (ds > c17_max[kind]) c17_max[kind] = ds;
-		if (ds > kbound[kind])
+		if (ds > SOLO_SLACK(kbound[kind]))
 			vrt_fail("solo", "%s run solo (all other threads frozen) took %lu own steps, bound %lu", kname[kind], ds, kbound[kind]);
 		c17_unfreeze_all();
 		c17_self[me] = 0;
@@ -380,7 +384,7 @@ static void c17_op_end(int kind)
 		vrt_log("SOLOMID %s steps=%lu", kname[kind], g);
 		c17_runs[1]++;
 		if (g > c17_midmax[kind]) c17_midmax[kind] = g;
-		if (g > kbound[kind] + 2)
+		if (g > SOLO_SLACK(kbound[kind]))
 			vrt_fail("solo", "%s, all others frozen in the middle of it, needed %lu more steps, bound %lu", kname[kind], g, kbound[kind]);
 		c17_mid_active = 0;
 		c17_unfreeze_all();
